@@ -163,11 +163,19 @@ def splitArgs (f : FuncVal) (args : List Obj) : List String × List Obj × List 
     if args.length ≥ n then (params, args.take n, args.drop n) else (params, args, [])
   else (f.params, args, [])
 
+/-- `NewFunctionEnvironment`'s test "the callee is the function this frame is running" (a recursive call): same
+printed text AND same defining environment, i.e. the same closure (repo fix cdb9b8a: the text alone made two
+closures of one factory "the same function", so the callee looked its captures up in the caller's frame) -/
+def sameFunction (cf : Frame) (f : FuncVal) : Bool :=
+  cf.cacheKey == f.key && (match cf.function with
+    | some g => g.env == f.env
+    | none => false)
+
 /-- `extendFunctionEnv` (NoReg path) together with `NewFunctionEnvironment` -/
 def extendFunctionEnv (f : FuncVal) (args : List Obj) : M (Except Obj Nat) := do
   let cur ← curEnv
   let cf ← getFrame cur
-  let same := cf.cacheKey == f.key
+  let same := sameFunction cf f
   let parent := if same then cur else f.env
   let pf ← getFrame parent
   let nenv ← newFrame { outer := some parent, cacheKey := f.key, depth := pf.depth + 1, function := some f }
